@@ -19,6 +19,9 @@ type When struct {
 	Text     string `json:"text"`
 	Ns       string `json:"ns"`
 	AsParent bool   `json:"asparent"`
+	// Ctx is "parent" or "self" in a dump; a predicted schema may also say "any" (the statement does not fix
+	// the context node of this when).
+	Ctx string `json:"ctx"`
 }
 
 // Must is one must-condition attached to a node.
@@ -210,7 +213,11 @@ func DumpNode(n schema.Node) *Node {
 		return d.Musts[i].Text+"\x00"+d.Musts[i].Ns < d.Musts[j].Text+"\x00"+d.Musts[j].Ns
 	})
 	for _, w := range n.Whens() {
-		d.Whens = append(d.Whens, When{Text: condText(w.ErrMsg), Ns: w.Namespace, AsParent: w.RunAsParent})
+		ctx := "self"
+		if w.RunAsParent {
+			ctx = "parent"
+		}
+		d.Whens = append(d.Whens, When{Text: condText(w.ErrMsg), Ns: w.Namespace, AsParent: w.RunAsParent, Ctx: ctx})
 	}
 	sort.Slice(d.Whens, func(i, j int) bool {
 		return d.Whens[i].Text+"\x00"+d.Whens[i].Ns < d.Whens[j].Text+"\x00"+d.Whens[j].Ns
@@ -321,6 +328,7 @@ type Difference struct {
 type Options struct {
 	IgnoreAsParent bool // do not compare the context flag of when conditions
 	IgnoreCondNs   bool // do not compare the namespace that unprefixed names of must/when conditions resolve in
+	ModelCtx       bool // the first dump is a prediction: its when conditions say "parent", "self" or "any" (not judged)
 }
 
 func whensStr(ws []When, o Options) string {
@@ -339,6 +347,48 @@ func whensStr(ws []When, o Options) string {
 	return strings.Join(parts, " | ")
 }
 
+// whensAgree matches the when conditions of a prediction (model) with those of a dump as multisets of
+// (text, namespace); a predicted context "parent" or "self" must be the dump's, "any" matches both.
+func whensAgree(model, code []When) bool {
+	if len(model) != len(code) {
+		return false
+	}
+	used := make([]bool, len(code))
+	match := func(m When, exact bool) bool {
+		for i, c := range code {
+			if used[i] || c.Text != m.Text || c.Ns != m.Ns {
+				continue
+			}
+			if exact && c.Ctx != m.Ctx {
+				continue
+			}
+			used[i] = true
+			return true
+		}
+		return false
+	}
+	for _, m := range model {
+		if m.Ctx != "any" && m.Ctx != "" && !match(m, true) {
+			return false
+		}
+	}
+	for _, m := range model {
+		if (m.Ctx == "any" || m.Ctx == "") && !match(m, false) {
+			return false
+		}
+	}
+	return true
+}
+
+func whensCtxStr(ws []When) string {
+	parts := []string{}
+	for _, w := range ws {
+		parts = append(parts, w.Text+"@"+w.Ns+"@"+w.Ctx)
+	}
+	sort.Strings(parts)
+	return strings.Join(parts, " | ")
+}
+
 func mustsStr(ms []Must, o Options) string {
 	parts := []string{}
 	for _, m := range ms {
@@ -349,6 +399,21 @@ func mustsStr(ms []Must, o Options) string {
 		}
 	}
 	return strings.Join(parts, " | ")
+}
+
+// with a prediction on the left the contexts of the when conditions are matched (see whensAgree)
+func whenCtxA(a, b *Node, o Options) string {
+	if !o.ModelCtx || whensAgree(a.Whens, b.Whens) {
+		return ""
+	}
+	return whensCtxStr(a.Whens)
+}
+
+func whenCtxB(a, b *Node, o Options) string {
+	if !o.ModelCtx || whensAgree(a.Whens, b.Whens) {
+		return ""
+	}
+	return whensCtxStr(b.Whens)
 }
 
 func uniqStr(us [][]string) string {
@@ -393,6 +458,7 @@ func diff(a, b *Node, path string, o Options) *Difference {
 		{"type", a.Type, b.Type},
 		{"must", mustsStr(a.Musts, o), mustsStr(b.Musts, o)},
 		{"when", whensStr(a.Whens, o), whensStr(b.Whens, o)},
+		{"when-context", whenCtxA(a, b, o), whenCtxB(a, b, o)},
 		{"description", a.Desc, b.Desc},
 		{"children", names(a.Children), names(b.Children)},
 	}
